@@ -261,7 +261,7 @@ func (e *c06Env) runSelect(sel *Stmt, res *core.Result) *c06Verdict {
 		return &c06Verdict{"planning-failed/" + f.Kind + "@" + f.Where, sql + " -> " + f.String()}
 	}
 	if len(pfs) == 0 {
-		pfs, plansS = [][]int{nil}, []string{"(planner path)"}
+		pfs, plansS = []PlanChoices{nil}, []string{"(planner path)"}
 	}
 	for i, pf := range pfs {
 		SetPlanChoices(pf)
